@@ -3,19 +3,21 @@
    an unsupported type, an object whose __getstate__/__reduce__ raises), then every value that holds x at a
    position the dumper serialises cannot be dumped either -- dumps_model raises, whatever else the value contains and
    whatever was written into the in-memory archive before x was reached. *)
-From Coq Require Import List ZArith.
-From Skv Require Import PyStr Json PyVal CodecDump.
+From Coq Require Import List ZArith Lia.
+From Skv Require Import PyStr Json PyVal CodecDump CodecWfFacts.
 Import ListNotations.
 
 Definition always_raises (E : denv) (x : pval) : Prop := forall st, exists e, get_state E x st = Raise e.
 
-(* positions the dumper serialises (object arrays are left out: tolist_state visits as many cells as the shape says) *)
+(* positions the dumper serialises (the cells of an object array included: every cell of an array is serialised, whatever
+   its rank; a value that is not an array -- a shape that does not fit the cells -- is outside the model, EDomain) *)
 Inductive inside (x : pval) : pval -> Prop :=
 | in_here : inside x x
 | in_seq q id m c nt items y : In y items -> inside x y -> inside x (PSeq q id m c nt items)
 | in_dict id m c items k y : In (k, y) items -> is_prop y = false -> inside x y -> inside x (PDict id m c items)
 | in_defdict_val id m c fac items k y : In (k, y) items -> is_prop y = false -> inside x y -> inside x (PDefDict id m c fac items)
 | in_defdict_factory id m c fac items : inside x fac -> inside x (PDefDict id m c fac items)
+| in_objarr id m c shape cells y : In y cells -> inside x y -> inside x (PObjArr id m c shape cells)
 | in_masked_data id m c d k : inside x d -> inside x (PMasked id m c d k)
 | in_masked_mask id m c d k : inside x k -> inside x (PMasked id m c d k)
 | in_randstate id m c s : inside x s -> inside x (PRandState id m c s)
@@ -71,11 +73,38 @@ Section Loops.
   Qed.
 End Loops.
 
+(* the content of an object array: a closure that always raises makes the whole nest of tolist() lists raise *)
+Definition araises (c : clo) : Prop := forall st, exists e, c st = Raise e.
+Lemma run_all_raises cs c : In c cs -> araises c -> forall st, exists e, run_all cs st = Raise e.
+Proof.
+  induction cs as [|z cs IH]; intros Hin Hc st; [destruct Hin|]. cbn [run_all]. destruct Hin as [<-|Hin].
+  - apply bind_raises. apply Hc.
+  - destruct (z st) as [[j st1]|e]; [|exists e; reflexivity]. cbn [bind]. apply bind_raises. apply IH; assumption.
+Qed.
+Lemma tolist_raises : forall dims cs c, length cs = nprod dims -> In c cs -> araises c -> araises (tolist_state dims cs).
+Proof.
+  induction dims as [|d ds IH]; intros cs c Hl Hin Hc.
+  - cbn [nprod] in Hl. destruct cs as [|c0 [|c1 cs]]; try discriminate Hl. destruct Hin as [<-|[]]. exact Hc.
+  - cbn [nprod] in Hl. intros st. cbn [tolist_state]. destruct (fresh st) as [lid st0].
+    destruct (in_chunks (nprod ds) d cs c Hl Hin) as [ch [Hch Hcc]].
+    apply bind_raises. apply (run_all_raises _ (tolist_state ds ch)); [apply in_map; exact Hch|].
+    apply (IH ch c); [exact (chunks_len_in _ _ _ _ Hl Hch)|exact Hcc|exact Hc].
+Qed.
+Lemma content_raises dims cs c : length cs = nprod dims -> In c cs -> araises c ->
+  forall st, exists e, run_all (content_clos dims cs) st = Raise e.
+Proof.
+  intros Hl Hin Hc. destruct dims as [|d ds]; cbn [content_clos].
+  - apply (run_all_raises _ (tolist_state [] cs)); [left; reflexivity|]. exact (tolist_raises [] cs c Hl Hin Hc).
+  - cbn [nprod] in Hl. destruct (in_chunks (nprod ds) d cs c Hl Hin) as [ch [Hch Hcc]].
+    apply (run_all_raises _ (tolist_state ds ch)); [apply in_map; exact Hch|].
+    apply (tolist_raises ds ch c); [exact (chunks_len_in _ _ _ _ Hl Hch)|exact Hcc|exact Hc].
+Qed.
+
 Theorem inside_raises E x v : inside x v -> always_raises E x -> always_raises E v.
 Proof.
   intros Hin Hx. induction Hin as
     [ | q id m c nt items y Hy _ IH | id m c items k y Hy Hp _ IH | id m c fac items k y Hy Hp _ IH
-      | id m c fac items _ IH | id m c d k _ IH | id m c d k _ IH | id m c s _ IH | id m c bg ss _ IH | id m c bg ss _ IH
+      | id m c fac items _ IH | id m c shape cells y Hy _ IH | id m c d k _ IH | id m c d k _ IH | id m c s _ IH | id m c bg ss _ IH | id m c bg ss _ IH
       | id m c f a k n _ IH | id m c f a k n _ IH | id m c f a k n _ IH | id m c f a k n _ IH
       | id c attrs _ IH | id m f self _ IH | id m c hk hid arg _ IH | id m c hk hid arg _ IH ];
     intros st; cbn [get_state].
@@ -87,6 +116,11 @@ Proof.
     apply bind_raises. apply (content_of_raises E items k y Hy Hp IH).
   - destruct (fresh st) as [did st0]. destruct (fresh st0) as [ktid st0']. apply bind_cases. intros kts.
     apply bind_cases. intros [cont st1]. apply bind_raises. apply IH.
+  - (* a cell of an object array *)
+    destruct (shape_okb shape (length cells)) eqn:Hok; [|exists EDomain; reflexivity].
+    destruct (shape_ok_nat _ _ Hok) as [_ [_ Hlen]]. destruct (fresh st) as [lid st0]. apply bind_raises.
+    apply (content_raises _ _ (fun s0 => get_state E y s0)); [rewrite map_length; exact Hlen| |exact IH].
+    apply (in_map (fun x0 s0 => get_state E x0 s0)). exact Hy.
   - apply bind_raises. apply IH.
   - apply bind_cases. intros [jd st1]. apply bind_raises. apply IH.
   - apply bind_raises. apply IH.
@@ -118,6 +152,22 @@ Theorem inside_dumps_raises E base x v :
 Proof.
   intros Hin Hx. unfold dumps_model.
   destruct (inside_raises E x v Hin Hx (init_dst base)) as [e He]. rewrite He. exists e. reflexivity.
+Qed.
+
+(* non-vacuity for object arrays: an unsupported value as a cell of a (2,1) array inside a rank-0 array *)
+Example inside_objarr_example :
+  let bad := PUnsup 99 (s "m") (s "C") in
+  let v := PObjArr 1 (s "numpy") (s "ndarray") []
+             [PObjArr 2 (s "numpy") (s "ndarray") [2; 1]%Z [PScalar 3 (SInt 1); PSeq QList 4 (s "builtins") (s "list") false [bad]]] in
+  inside bad v /\ forall E base, exists e, dumps_model E base v = Raise e.
+Proof.
+  cbn zeta. assert (H : inside (PUnsup 99 (s "m") (s "C"))
+    (PObjArr 1 (s "numpy") (s "ndarray") []
+       [PObjArr 2 (s "numpy") (s "ndarray") [2; 1]%Z [PScalar 3 (SInt 1); PSeq QList 4 (s "builtins") (s "list") false [PUnsup 99 (s "m") (s "C")]]])).
+  { eapply in_objarr; [left; reflexivity|]. eapply in_objarr; [right; left; reflexivity|].
+    eapply in_seq; [left; reflexivity|apply in_here]. }
+  split; [exact H|]. intros E base. unfold dumps_model.
+  destruct (inside_raises E _ _ H (fun st => ex_intro _ EUnsupported eq_refl) (init_dst base)) as [e He]. rewrite He. exists e. reflexivity.
 Qed.
 
 (* non-vacuity: an unsupported value three levels down, behind values that DO get written first *)
